@@ -24,7 +24,7 @@ def main():
     sc = harness.Scratch(cfg_test=cfgtest)
     prog = harness.Program(sc, prof == 'on')
     sc.finish_replay(prog)
-    ob = oblig.Ob(fn, dom=dom, abstractions=abst, kf=kf, strlen=strlen, unwind=unwind)
+    ob = oblig.Ob(fn, dom=dom, abstractions=abst, kf=kf, strlen=strlen, unwind=unwind, opts={'fmt_terms': True} if '--fmt' in a else None)
     qdir = os.path.join(sc.dir, 'q'); os.makedirs(qdir, exist_ok=True)
     pts = oblig.gen_points(prog, ob, nval, 1) if nval else None
     rec = oblig.run_slice(prog, ob, {}, prof == 'on', qdir, timeout, validate_points=pts)
